@@ -185,6 +185,13 @@ def _apply(w, f, i, kind, s, obj, where, before, desc, safe_query):
         ref.I_coh(new, where=where)
         s.obj = new
         fired = True
+    elif kind == "rekey":
+        if s.kind != "pdf":
+            w.stats["fault_skipped"] += 1
+            return
+        jnp = lib()["jnp"]
+        obj.sample(jnp.asarray(np.asarray(f["key"], dtype=np.uint32)), int(f["n"]))
+        fired = True
     else:
         raise KeyError(kind)
     if fired:
